@@ -251,6 +251,16 @@ def rule_aggclass(P) -> RuleResult:
                 fail('finalize', f'finalize() must keep the value of this group\'s slot (store[self.handle]); it keeps `{show(kept)}`')
             elif len(pc) != 1 or pc[0].value != CUR:
                 fail('finalize', f'the aggregate node must evaluate to the finalized value of its group; it gives `{show(pc[0].value) if pc else "?"}`')
+            else:
+                # a group whose slot ends NULL (min / max / first of NULLs only, last with a NULL last row): the node - one object
+                # for all groups - must not go on showing the value it finalized for the previous group
+                cn = _Case(VAL, None, 'gt', True)
+                pn = _run(P, fin, cn, (STORE,))
+                MISSING = Sym('VALUE_FINALIZED_FOR_THE_PREVIOUS_GROUP')
+                keptn = pn.heap.get(T('attr', (NODE, 'value')), MISSING)
+                if keptn is not None:
+                    fail('finalize-null', f'finalize() of a group whose slot holds NULL must make the node NULL; the node keeps '
+                         f'`{show(keptn)}`: the group reports the aggregate of the group output before it')
         if len(res.findings) == n0:
             res.ok({'aggregate': f.label, 'class': ci.name, 'cases': len(cases), 'initial': init_kind})
     return res
